@@ -189,6 +189,18 @@ func c19MultiDocRun(ctx *Ctx) error {
 				c19SummarySrc + `
 func main() {
 	out := map[string]interface{}{}
+	// an earlier caller that edits what it was given (the README does so with Servers): every call returns the
+	// specification itself, not what another caller made of it
+	if first, ferr := api.GetSwagger(); ferr == nil && first != nil {
+		first.Servers = nil
+		first.Paths = openapi3.NewPaths()
+		if first.Info != nil {
+			first.Info.Title = "edited by an earlier caller"
+		}
+		if first.Components != nil {
+			first.Components.Schemas = openapi3.Schemas{}
+		}
+	}
 	sw, err := api.GetSwagger()
 	if err != nil {
 		out["err"] = err.Error()
